@@ -221,6 +221,26 @@ def run(ctx):
                         ctx.probes["reuse_after_type_reparented"] += 1
                         if not interp.state_eq(want5, want):
                             ctx.probes["reparenting_changes_successor"] += 1
+            elif ops.chance(1, 4):
+                # history: the action schema is revised in place (an effect added or removed), the kept operator is
+                # grounded again through its public ground() and applied: it must follow the schema as it is NOW
+                r = C.revise_model(ctx, W, d, ops, kinds=("drop_effect", "add_effect"))
+                if r and r[1].startswith(aname + ":"):
+                    W2, what = r
+                    try:
+                        ok6 = interp.applicable(S, W2.action(aname), args, W2.D, W2.objs)
+                        want6 = interp.successor(S, W2.action(aname), args, W2.D, W2.objs)[0] if ok6 else None
+                    except (interp.Inconsistent, interp.Undefined):
+                        ok6 = False
+                    if ok6:
+                        site6 = "Operator.ground + apply (re-used operator, the schema was revised in place)"
+                        try:
+                            op.ground()
+                        except Exception as e:
+                            raise Violation("C03/applicable-action-raised", site6, f"{what}: {type(e).__name__}: {e}")
+                        got6 = apply(ctx, op, lib(ctx, W, S, "-revised")[2], FLAGS[0], site6, [])
+                        compare(ctx, got6, want6, site6, what, W2, S, call)
+                        ctx.probes["reground_after_schema_revision"] += 1
             elif ops.chance(1, 3):
                 types = [ty for ty in W.D["types"] if ty not in W.D.get("implicit_types", ())]
                 ty = ops.pick(types) if types else None
